@@ -951,6 +951,16 @@ impl Other {
             },
             // an observation for the model driver only: it compares the answers the two sources gave last
             "ssame" | "ksame" | "plong" => Some("ok".into()),
+            // `sclone a b`: b = a.clone() (the whole source, a pending look-ahead or cached item included)
+            "sclone" => {
+                let copy = match self.srcs.get(&id(toks[1])).expect("harness: unknown source id") {
+                    SrcTop::Plain(b) => SrcTop::Plain(b.clone()),
+                    SrcTop::Peek(p) => SrcTop::Peek(p.clone()),
+                    SrcTop::Cache(c) => SrcTop::Cache(c.clone()),
+                };
+                self.srcs.insert(id(toks[2]), copy);
+                Some("ok".into())
+            }
             "pull" => {
                 let s = self.srcs.get_mut(&id(toks[1])).expect("harness: unknown source id");
                 Some(match s {
